@@ -153,11 +153,17 @@ def safety_sig(sig: str, detail: dict) -> str:
 
 # ---------------------------------------------------------------------------
 
+def aligned_plan() -> ConnPlan:
+    """Whole segments, one fixed latency (equal to the FIN latency): what two
+    parties send at the same virtual instant arrives at the same instant."""
+    return ConnPlan(latency=0.004, seg='whole', seg_lat=(0.002, 0.002))
+
+
 class Engine:
     """Applies abstract events to one world and exposes what can be observed."""
 
     def __init__(self, w: World, handle, peers: dict, rng: random.Random, *, overlap: bool,
-                 indirect: dict, judge_c13: bool = True):
+                 indirect: dict, judge_c13: bool = True, aligned: bool = False):
         self.w, self.h = w, handle
         self.client = handle.client
         self.dn = self.client.distributed_network
@@ -166,6 +172,8 @@ class Engine:
         self.overlap = overlap
         self.indirect = indirect                 # peer -> 'pierce' | 'cannot' | 'ignore'
         self.judge_c13 = judge_c13
+        self.aligned = aligned
+        self.ghosts = 0                          # proposed names nobody listens for
         self.queues: dict = {}                   # party -> last task
         self.own_speed = 0
         self.direct_fail: dict = {}              # peer -> 'refuse' | 'hang' (one shot)
@@ -281,7 +289,7 @@ class Engine:
                     peer_ports[prt] = name
 
         def planner(node, host, port, attempt):
-            plan = ConnPlan(latency=w.net.rng.uniform(0.001, 0.03))
+            plan = aligned_plan() if self.aligned else ConnPlan(latency=w.net.rng.uniform(0.001, 0.03))
             name = peer_ports.get(port)
             if node == ME and name is not None:
                 how = self.direct_fail.pop(name, None)
@@ -289,6 +297,8 @@ class Engine:
                     plan.connect = 'refuse'
                 elif how == 'hang':
                     plan.connect = 'hang'
+                elif isinstance(how, (int, float)):
+                    plan.latency = float(how)            # slow, but within the connect timeout
             return plan
         w.net.planner = planner
 
@@ -318,6 +328,16 @@ class Engine:
         if alive:
             out = [l for l in out if self.link_alive(l)]
         return out
+
+    @staticmethod
+    def requested_link(link) -> bool:
+        """The client asked for this connection (it dialled, or the scripted peer
+        pierced on the client's ConnectToPeer): a connection to a user the server
+        proposed as potential parent, never a child's connection."""
+        from aioslsk.protocol.messages import PeerPierceFirewall
+        if link.conn.src == ME:
+            return True
+        return bool(link.sent) and isinstance(link.sent[0][1], PeerPierceFirewall.Request)
 
     def all_links(self) -> list:
         return [(name, l) for name, p in self.peers.items() for l in p.links]
@@ -399,6 +419,8 @@ class Engine:
             return ev['peer']
         if k == 'search' and ev.get('carrier') != 'server':
             return 'parent-link'
+        if k == 'wait':
+            return 'clock'
         return 'server'
 
     def apply(self, ev: dict) -> asyncio.Task:
@@ -417,7 +439,12 @@ class Engine:
         from aioslsk.protocol.primitives import PotentialParent
         await self._server_ready()
         entries = [PotentialParent(p, self.peers[p].ip, self.peers[p].port) for p in ev['peers']]
-        self.abstract.append(f"pp:{len(ev['peers'])}:" + ','.join(sorted({self.role_of_peer(p) for p in ev['peers']})))
+        for _ in range(ev.get('ghosts', 0)):
+            # proposed users that cannot be reached (nobody listens, the server knows no such user)
+            self.ghosts += 1
+            entries.append(PotentialParent(f'ghost{self.ghosts}', '10.9.9.9', 9))
+        self.abstract.append(f"pp:{len(ev['peers'])}{'+ghosts' if ev.get('ghosts') else ''}:"
+                             + ','.join(sorted({self.role_of_peer(p) for p in ev['peers']})))
         self.w.server.push(ME, PotentialParents.Response(entries=entries))
 
     async def _act_in(self, ev, rec):
@@ -481,8 +508,15 @@ class Engine:
             link.close()
 
     async def _act_cfail(self, ev, rec):
-        self.direct_fail[ev['peer']] = ev['how']
+        if ev['how'] == 'slow':
+            self.direct_fail[ev['peer']] = float(ev['latency'])
+        else:
+            self.direct_fail[ev['peer']] = ev['how']
         self.abstract.append(f"cfail:{ev['how']}:{self.indirect.get(ev['peer'])}")
+
+    async def _act_wait(self, ev, rec):
+        self.abstract.append('wait')
+        await asyncio.sleep(float(ev['t']))
 
     async def _act_limits(self, ev, rec):
         from aioslsk.protocol.messages import ParentMinSpeed, ParentSpeedRatio
@@ -571,10 +605,17 @@ class Engine:
         rec = {'t': round(self.w.now, 6), 'user': peer.username, 'accept': bool(dn._accept_children),
                'children': len(dn.children), 'max': dn._max_children,
                'in_potential_parents': peer.username in dn.potential_parents}
+        sc = self.simconn_of(peer.connection)
+        link = self.link_by_simconn(sc)          # may not exist yet: the scripted peer accepts one step later
+        rec['connection_requested_by_client'] = bool(
+            (sc is not None and sc.src == ME) or (link is not None and self.requested_link(link)))
         self.add_child_recs.append(rec)
         self.add_obs('add_child_observed')
         if not self.judge_c13:
             return
+        if rec['connection_requested_by_client']:
+            self.violate('child-accepted:potential-parent', add_child=rec,
+                         note='the connection is one the client itself opened to a user the server proposed')
         if not rec['accept']:
             self.violate('child-accepted:acceptance-off', add_child=rec)
         if rec['children'] >= rec['max']:
@@ -780,6 +821,13 @@ def gen_c13_events(rng: random.Random, n_peers: int, length: int) -> list:
     def total():
         return sum(1 + len(e.get('during') or []) for e in evs)
 
+    if length >= 7 and rng.random() < 0.12:
+        # family: many proposals, one slow early candidate
+        slow = rng.choice(peers)
+        first = rng.choice([9, 10, 12])
+        evs += many_proposals(slow, rng.choice([2.0, 3.0, 4.5]), (first, rng.choice([8, 10]), rng.choice([11, 13])))
+        linked.append(slow)
+
     while total() < length:
         if not evs and rng.random() < 0.6:
             k = rng.choice(['pp', 'pp', 'in', 'limits'])
@@ -838,6 +886,17 @@ def gen_c13_events(rng: random.Random, n_peers: int, length: int) -> list:
     return evs
 
 
+def many_proposals(peer: str, latency: float = 3.0, ghosts=(9, 10, 11)) -> list:
+    """More proposed names than the documented potential-parent cache holds
+    (20), almost all unreachable; the connect to ``peer``, proposed first, is slow
+    and completes after its name has left the cache."""
+    out = [{'e': 'cfail', 'peer': peer, 'how': 'slow', 'latency': latency}]
+    for i, g in enumerate(ghosts):
+        out.append({'e': 'pp', 'peers': [peer] if i == 0 else [], 'ghosts': g})
+    out.append({'e': 'wait', 't': latency})
+    return out
+
+
 def _A(peer, level, root='rootA', order='lr'):
     return {'e': 'ann', 'peer': peer, 'level': level, 'root': root, 'order': order}
 
@@ -889,6 +948,11 @@ C13_DIRECTED = [
     [{'e': 'pp', 'peers': ['p1']}, _A('p1', 1, root='rootB', order='rl'), _A('p1', 0, order='l'), {'e': 'in', 'peer': 'p2'}],
     [{'e': 'in', 'peer': 'p2'}, {'e': 'pp', 'peers': ['p1']}, _A('p1', 3), _A('p1', 0, order='l'), _A('p1', 2, order='l')],
     [{'e': 'pp', 'peers': ['p1']}, _A('p1', 0, order='l'), _A('p1', 2, root='rootB'), _A('p1', 0, order='l')],
+    # more proposals than the potential-parent cache holds, the connect to the first proposed user is slow
+    many_proposals('p1'),
+    many_proposals('p1') + [{'e': 'in', 'peer': 'p2'}, {'e': 'pp', 'peers': ['p3']}, _A('p3', 1)],
+    many_proposals('p1') + [_A('p1', 1), {'e': 'in', 'peer': 'p2'}],
+    many_proposals('p1', 2.0, (10, 11)) + [{'e': 'in', 'peer': 'p1'}],
 ]
 
 
@@ -915,6 +979,9 @@ def expand_c13(params: dict) -> dict:
                'n_peers': n_peers,
                'indirect': {p: rng.choices(['pierce', 'cannot', 'ignore'], [70, 15, 15])[0] for p in DPEERS[:n_peers]},
                'connect_mode': rng.choice(['race', 'fallback'])}
+    for e in cfg['events']:
+        if e['e'] == 'cfail' and e['how'] == 'slow':
+            cfg['indirect'][e['peer']] = 'ignore'     # else the pierced connection is there long before
     # burst structure and gaps of the overlapping half
     bursts, gaps = [], []
     i = 0
@@ -1074,6 +1141,21 @@ def gen_c14(rng: random.Random) -> dict:
     spare = rest[len(children):]
     candidate = spare[0] if spare and rng.random() < 0.6 else None
     steps: list = []          # events and 'burst' markers
+    family = rng.choices(['plain', 'many-proposals', 'closing-child'], [64, 16, 20])[0]
+    slow = None
+    if family == 'many-proposals':
+        # more proposed names than the potential-parent cache holds; the connect to the first proposed user is slow
+        if not spare:
+            spare = [children.pop()] if children else []
+        if spare:
+            slow = candidate = spare[0]
+        else:
+            family = 'plain'
+    if family == 'closing-child' and len(children) < 2:
+        children = rest[:2]
+        spare = rest[2:]
+        if candidate in children:
+            candidate = None
 
     def parent_events(p):
         lvl = rng.choice([0, 1, 2, 4])
@@ -1081,7 +1163,11 @@ def gen_c14(rng: random.Random) -> dict:
                 {'e': 'ann', 'peer': p, 'level': lvl, 'root': rng.choice(ROOTS), 'order': rng.choice(['lr', 'rl'])}]
 
     setup = []
-    if parent and rng.random() < 0.5:
+    if slow:
+        # before any parent is set (setting a parent cancels the pending connects)
+        setup += many_proposals(slow, rng.choice([2.0, 3.0]), (rng.choice([9, 10]), 10, rng.choice([11, 12])))
+        parent_done = False
+    elif parent and rng.random() < 0.5:
         setup += parent_events(parent)
         parent_done = True
     else:
@@ -1090,7 +1176,7 @@ def gen_c14(rng: random.Random) -> dict:
         setup.append({'e': 'in', 'peer': c})
     if parent and not parent_done:
         setup += parent_events(parent)
-    if candidate:
+    if candidate and not slow:
         # a candidate is a D connection that is neither parent nor child: a proposed peer that never announces
         # (with a parent set) or a proposed peer that dials in (never accepted as child)
         if parent:
@@ -1116,7 +1202,14 @@ def gen_c14(rng: random.Random) -> dict:
         return {'e': 'search', 'carrier': carrier, 'user': rng.choice(users_pool), 'ticket': ticket[0], 'query': None}
 
     for b in range(n_bursts):
-        steps.append({'burst': [request() for _ in range(rng.choice([1, 2, 2, 3]))]})
+        burst = {'burst': [request() for _ in range(rng.choice([1, 2, 2, 3]))]}
+        steps.append(burst)
+        if family == 'closing-child' and len(state['children']) >= 2 and rng.random() < 0.7:
+            # one child closes at the instant the requests are sent; its siblings must still get them
+            c = rng.choice(state['children'][:-1] if rng.random() < 0.7 else state['children'])
+            burst.update(leaver=c, leaver_first=rng.random() < 0.5, leaver_how=rng.choice(['close', 'close', 'abort']))
+            state['children'].remove(c)
+            state['free'].append(c)
         if b == n_bursts - 1:
             break
         # membership changes between requests
@@ -1143,10 +1236,12 @@ def gen_c14(rng: random.Random) -> dict:
             elif state['parent'] is not None:
                 steps.append({'e': 'ann', 'peer': state['parent'], 'level': rng.choice([1, 2, 3]),
                               'root': rng.choice(ROOTS), 'order': 'lr'})
+    indirect = {p: rng.choices(['ignore', 'pierce'], [70, 30])[0] for p in list(ASKERS) + peers}
+    if slow:
+        indirect[slow] = 'ignore'            # else the pierced connection is there long before
     return {'dirs': dirs, 'friends': friends, 'blocked': blocked, 'n_peers': n_peers, 'steps': steps,
-            'pool': pool, 'overlap': rng.random() < 0.5,
-            'indirect': {p: rng.choices(['ignore', 'pierce'], [70, 30])[0] for p in list(ASKERS) + peers},
-            'connect_mode': rng.choice(['race', 'fallback'])}
+            'pool': pool, 'overlap': rng.random() < 0.5, 'family': family, 'aligned': family == 'closing-child',
+            'indirect': indirect, 'connect_mode': rng.choice(['race', 'fallback'])}
 
 
 _FLAG_BITS = {'PRIVATE_MESSAGES': 1, 'ROOM_MESSAGES': 2, 'SEARCHES': 4, 'SHARES': 8, 'INFO': 16, 'UPLOADS': 32,
@@ -1222,6 +1317,8 @@ def run_c14_case(res: dict, params: dict):
             blocked={u: BlockingFlag(_flag_value(spec)) for u, spec in plan['blocked'].items()}))
         cfg = {'connect_mode': plan['connect_mode']}
         from aioslsk.network.network import PeerConnectMode
+        if plan.get('aligned'):
+            w.net.planner = lambda node, host, port, attempt: aligned_plan()     # the server link as well
         h = await w.add_client(ME, settings, scan=True)
         h.client.settings.network.peer.connect_mode = (
             PeerConnectMode.RACE if cfg['connect_mode'] == 'race' else PeerConnectMode.FALLBACK)
@@ -1230,7 +1327,8 @@ def run_c14_case(res: dict, params: dict):
             peers[name] = await w.add_peer(name)
         await settle(SETTLE)
         eng = Engine(w, h, peers, random.Random(f'{w.seed}:eng'), overlap=plan['overlap'],
-                     indirect=plan['indirect'], judge_c13=False)
+                     indirect=plan['indirect'], judge_c13=False, aligned=bool(plan.get('aligned')))
+        runner.add_cover(res, 'families', plan.get('family', 'plain'))
         holder['eng'] = eng
         _CURRENT = eng
         client = h.client
@@ -1270,10 +1368,18 @@ def run_c14_case(res: dict, params: dict):
                 # ---- a burst of requests while the membership is fixed -----------------------
                 await eng.quiesce()
                 plink = eng.parent_link()
-                K = eng.child_links()
+                # a connection the client itself opened (to a user the server proposed) is a candidate's, never a
+                # child's, whatever the client's children list says
+                K = [l for l in eng.child_links() if not eng.requested_link(l)]
+                counted_as_child = [l.peer.name for l in eng.child_links() if eng.requested_link(l)]
+                if counted_as_child:
+                    add('candidate_links_in_children_list', len(counted_as_child))
                 k_ids = {l.conn.id for l in K}
                 for l in K:
                     eng.ever_children.add(l.conn.id)
+                leaver = st.get('leaver')
+                leaver_links = [l for l in K if l.peer.name == leaver] if leaver else []
+                leaver_ids = {l.conn.id for l in leaver_links}
                 marks = {id(l): len(l.frames) for _n, l in eng.all_links()}
                 n_cand = sum(1 for _n, l in eng.all_links() if l.typ == 'D' and eng.link_alive(l)
                              and l is not plink and l.conn.id not in k_ids)
@@ -1286,21 +1392,32 @@ def run_c14_case(res: dict, params: dict):
                 reply_mark = len(eng.own_replies)
                 srv_mark = len(w.server.frames)
                 reqs = []
+                if leaver_links:
+                    # one child closes at the very instant the requests are sent (latencies are aligned): its FIN and
+                    # the first request reach the client in the same loop iteration
+                    add('bursts_with_child_closing')
+                    leave = {'e': 'disc', 'peer': leaver, 'how': st.get('leaver_how', 'close')}
+                    if st.get('leaver_first', True):
+                        eng.apply(leave)
                 for req in st['burst']:
                     req = dict(req)
                     if req['carrier'] != 'server' and plink is None:
                         req['carrier'] = 'server'
                     reqs.append(req)
                     eng.apply(req)
+                    if leaver_links:
+                        continue
                     if plan['overlap']:
                         await _gap(rng.choice([['y', 0], ['y', 1], ['y', 3], ['t', 0.002], ['t', 0.01]]))
                     else:
                         await eng.drain()
                         await settle(SETTLE)
+                if leaver_links and not st.get('leaver_first', True):
+                    eng.apply(leave)
                 await eng.drain()
                 await settle(1.0)
-                k_after = {l.conn.id for l in eng.child_links()}
-                stable = k_after == k_ids and eng.parent_link() is plink
+                k_after = {l.conn.id for l in eng.child_links() if not eng.requested_link(l)}
+                same_parent = eng.parent_link() is plink
                 by_ticket = {r['ticket']: r for r in reqs}
                 # frames that arrived on every link of every scripted peer since the burst began
                 arrivals = []       # (peer, link, msg)
@@ -1322,7 +1439,9 @@ def run_c14_case(res: dict, params: dict):
                     if own:
                         add('own_name_requests')
                     info = dict(request=req, children=[l.peer.name for l in K],
-                                parent=None if plink is None else plink.peer.name)
+                                parent=None if plink is None else plink.peer.name,
+                                candidates_in_children_list=counted_as_child,
+                                child_closing_at_that_instant=leaver if leaver_links else None)
                     runner.add_cover(res, 'carriers', carrier + ('+own-name' if own else ''))
                     runner.add_cover(res, 'tree_shapes', f"{'P' if plink is not None else '-'}{len(K)}")
                     # ---- forwards --------------------------------------------------------------
@@ -1342,8 +1461,13 @@ def run_c14_case(res: dict, params: dict):
                         for l in K:
                             add('forwards_checked')
                             n = len(per_link.get(id(l), [None, None, []])[2])
-                            if n == 0 and stable and not unspecified_forward:
-                                violate(f'forward:missing:{carrier}', child=l.peer.name, **info)
+                            if l.conn.id in leaver_ids:
+                                if n > 1:
+                                    violate(f'forward:duplicate:{carrier}', child=l.peer.name, copies=n, **info)
+                                continue                     # closing at that instant: 0 or 1 copies
+                            if n == 0 and l.conn.id in k_after and same_parent and not unspecified_forward:
+                                violate('forward:missing:while-a-child-closes' if leaver_links
+                                        else f'forward:missing:{carrier}', child=l.peer.name, **info)
                             elif n > 1:
                                 violate(f'forward:duplicate:{carrier}', child=l.peer.name, copies=n, **info)
                             elif n == 1:
@@ -1367,7 +1491,7 @@ def run_c14_case(res: dict, params: dict):
                         # links outside K were looked at as well (they got nothing)
                         add('forwards_checked', sum(1 for _n, l in eng.all_links()
                                                     if l.typ == 'D' and l.conn.id not in k_ids and id(l) not in per_link))
-                    if K and not own:
+                    if (K or counted_as_child) and not own:
                         nontrivial['v'] = True
                     # ---- reply -------------------------------------------------------------------
                     if own:
